@@ -61,6 +61,7 @@ type FuncContract struct {
 	Loops    map[int]*LoopContract
 	Inline   bool
 	Trusted  bool
+	PartialLoops bool // partial, but loop invariants, variants and frame conditions are checked as well
 	Partial  bool // only ensures and assert-before-call clauses are checked (rest of the body is not claimed)
 	Safety   string // "" default on, "off"
 	SafeTags []string
@@ -105,7 +106,7 @@ type PkgContracts struct {
 	Lemmas []*Lemma
 }
 
-var kwRe = regexp.MustCompile(`^(heapview\b|sumfield\b|ufun\b|assume\b|requires\b|ensures\b|invariant\b|decreases\b|modifies\b|assert\b|loop \d|result is\b|inline$|trusted$|partial$|safety\b|param [A-Za-z_]|func\b|ghost\b|pred\b|axiom\b|lemma\b|nopanic$)`)
+var kwRe = regexp.MustCompile(`^(heapview\b|sumfield\b|ufun\b|assume\b|requires\b|ensures\b|invariant\b|decreases\b|modifies\b|assert\b|loop \d|result is\b|inline$|trusted$|partial$|partial loops$|safety\b|param [A-Za-z_]|func\b|ghost\b|pred\b|axiom\b|lemma\b|nopanic$)`)
 var tagRe = regexp.MustCompile(`^\[([^\]]*)\]`)
 
 func loadContracts(dir, pkgPath string) (*PkgContracts, error) {
@@ -245,6 +246,9 @@ func loadContracts(dir, pkgPath string) (*PkgContracts, error) {
 				cur.Trusted = true
 			case "partial":
 				cur.Partial = true
+				if rest == "loops" {
+					cur.PartialLoops = true
+				}
 			case "nopanic":
 			case "safety":
 				if rest == "off" {
